@@ -5,6 +5,9 @@ ROOT = os.path.dirname(os.path.dirname(os.path.abspath(__file__)))
 
 # id -> (level, technique, level text, level note, design ref)
 CHECKS = {
+ "C09": ("exploration", "Go race detector + determinism monitor across processes, driven by a build-tagged schedule-perturbation hook whose interleaving log measures the distinct interleavings observed",
+         "Each (grammar, options, args) is generated repeatedly in separate processes under GOMAXPROCS 1/2/4/16 and seeded perturbation of the two analysis goroutines; exit, stderr and sha256(stdout) must be identical; the same under the race detector (hook without synchronisation); concurrent Compile calls on independent trees in one -race process must equal the sequential results with zero reports.",
+         "Held on the schedules produced (counted in the evidence); races on schedules never produced are not excluded; no bit-for-bit replay (rr unavailable).", "5/C09"),
  "C15": ("exploration", "reference-model monitor on the CLI's diagnostics: planted grammars, stderr/exit observed, ground truth from an independent grammar analysis",
          "The real CLI is run with and without -strict on grammars with planted undefined names, unreachable rules/cycles, left-recursive cycles under every operator behind nullable/consuming prefixes, duplicate definitions and clean grammars; the sets of (kind, rule) parsed from stderr must equal gram's own analysis; exit codes, silence and complete output are checked; panics are violations.",
          "Held on the grammars produced; shapes where syntactic and semantic nullability coincide (DESIGN 6.3).", "5/C15"),
